@@ -53,7 +53,7 @@ PROPS = {
                 rule="translation validation of the real ast.Optimize: generated well-formed grammars (leaf rules referenced from several places, nested choices/sequences, adjacent single-rune literals and classes with and without i and ^, adjacent literals, predicates, labels, actions, code predicates, state blocks, throw/recover, random alternate entrypoints) are optimized on an independent copy; original and optimized AST are run by an independent reference PEG interpreter (harness/pvref) on ~12 inputs per entrypoint and compared on acceptance, consumed prefix and the full list of code-block invocations (text, pos, canonical label values); plus entrypoint survival, dangling references, parameter lists, fixpoint",
                 explanation="the optimizer is validated against a reference interpreter on generated grammars (execution); Lean proves each rewrite sound as a law of denotational PEG recognition in every context"),
     "C10": h1prop("PigeonVerif.Properties.C10", P(["val", "errs"]),
-                  [("mixed", 6000, 200000), ("state", 2000, 50000), ("lr", 1500, 40000)],
+                  [("mixed", 6000, 200000), ("blocks", 3000, 60000), ("state", 2000, 50000), ("lr", 1500, 40000)],
                   twins=twins_c10, twin_rel=rel_c10),
     "C11": h1prop("PigeonVerif.Properties.C11", P(["val", "errs"]),
                   [("panic", 3000, 90000), ("blocks", 2500, 60000), ("lr", 4000, 100000), ("utf8", 500, 10000)], oracles=[orc_c11]),
